@@ -100,11 +100,17 @@ def run(case):
             return name
         return np.ascontiguousarray(imgs.transpose(2, 1, 0)) if c["in_order"] == "xyz" else imgs.copy()
 
+    dose_arrays = {}
+
     def dose_input(ds, name="dose.txt"):
         if c["dose_as"] == "list":
             return list(ds)
         if c["dose_as"] == "array":
-            return np.array(ds, dtype=float)
+            # one array object per dose vector, handed to every call that uses this vector (as a caller would)
+            key = tuple(ds)
+            if key not in dose_arrays:
+                dose_arrays[key] = np.array(ds, dtype=float)
+            return dose_arrays[key]
         with open(name, "w") as f:
             f.write("".join(f"{d!r}\n" for d in ds))
         return name
@@ -157,10 +163,16 @@ def run(case):
         out.check(bool(np.all(np.abs(Fout) <= np.abs(Fin) * (1 + 1e-6) + tol * scale)), "power_increased", f"image {i}")
     if out.violations:
         return out
-    # repeated identical call (no state between calls)
+    if c["dose_as"] == "array":
+        out.check(np.array_equal(dose_arrays[tuple(doses)], np.array(doses, dtype=float)), "dose_array_argument_modified", "")
+    # a call with another pixel size on the same image shape in between, then the identical call again (no state between calls)
+    px_keep = px
+    px = px * 1.7
+    _ = filt(I, doses, label="dose_filter(other pixel size)")
+    px = px_keep
     R_again = filt(I, doses)
     if R_again is not None:
-        out.check(np.array_equal(R_again, R), "second_identical_call_differs", "")
+        out.check(np.array_equal(R_again, R), "second_identical_call_differs", f"max diff {np.abs(R_again - R).max()}")
     # composition: filter(d1) then filter(d2) == filter(d1+d2)   (array route in float64 only: no float32 file narrowing in between)
     d2 = [float(d) for d in c["doses2"]]
     if c["input"] == "array" and c["dtype"] == "float64" and c["dose_as"] != "file":
